@@ -28,6 +28,14 @@
       `goyang FILE...` (built from the checked tree) with a rejected file among its arguments, lying in a directory
       that also holds modules the good files import or include: exit status and standard output must be those of the
       run without the rejected argument, its messages those plus the report about the rejected file.
+  trees of files
+      histories over a tree of files that is reached through the search path only (command c18tree, harness/go/c18.go):
+      one module name in several directories with different contents, rejected files beside them, Path = root/... /
+      the directories in some order / a mix; loads by bare name (Read, GetModule) that fail or succeed, before, between
+      and after loads of texts that import / include modules of the tree, and runs.  Oracle = the property's text: the
+      history without its failed loads, on a fresh set over the same tree, gives the same verdicts, dumps, loaded
+      files and ms.Path.  Model: every file of the tree that enters the set is the one coq/Model/File.v (findFile_fs,
+      command findfile of the C13 part) finds for that name on this tree and Path -- lookups carry no state.
   oracle
       the extracted specification (coq/Spec/C18.v: spec_load, spec_ns) evaluated next to it: the implementation's
       verdicts, its set of loaded items and its namespace answers must be the specification's.
@@ -996,6 +1004,351 @@ def cli_leg(res, rnd, n_random, stats, max_report=3):
             shutil.rmtree(root, ignore_errors=True)
 
 
+# ------------------------------------------------------------------------------------------------ trees of files
+# Histories over a TREE of files reached through the search path alone (command c18tree of harness/go/c18.go): the
+# same module name occurs in several directories with different contents (a vendor tree with one directory per
+# release), rejected files lie beside them, and the search path is root/..., the directories in some order, or a mix.
+# Loads by BARE NAME (Modules.Read / GetModule, found by the scan of Path) fail or succeed; afterwards modules are
+# looked up by name (imports / includes loaded on demand by Process, Read, GetModule).
+#   oracle (the property's text)  the history with its failed loads taken out, run on a fresh set over the same tree,
+#       gives the same verdicts, the same dumps for every run, the same set of loaded files, the same ms.Path;
+#   model   every file of the tree that is in the set is the one coq/Model/File.v (findFile_fs, extracted command
+#       findfile of the C13 part) finds for that name on this tree and this search path: which file a lookup finds is a
+#       function of tree, Path and name, not of the lookups that went before.
+TREE_TYPES = ["string", "int32", "uint8", "boolean", "int64"]
+TREE_DIRS = ["rel-1", "rel-2", "rel-3", "rel-2/sub", "common/x", "a"]
+
+
+def tree_module(name, k):
+    """version k of a module of the tree (k = 'e': a version with a tree-level error, 'd': a dated one)"""
+    ty = TREE_TYPES[k % len(TREE_TYPES)] if isinstance(k, int) else "string"
+    if name == "dup":
+        body = "  typedef t { type %s; }\n  leaf from-%s { type t; }\n" % (ty, k)
+        if k == "e":
+            body += "  container c { uses nosuchgrouping; }\n"
+        return module("dup", rev=D1 if k == "d" else None, tds=["t"], body=body)["src"]
+    if name == "lib":
+        return module("lib", tds=["lt"], body="  typedef lt { type %s; }\n  grouping g { leaf lib-%s { type lt; } }\n" % (ty, k))["src"]
+    if name == "chain":
+        return module("chain", imports=[("dup", "d", None)], body="  leaf via-chain-%s { type d:t; }\n" % k)["src"]
+    if name == "usub":
+        return module("usub", belongs="host", prefix="h", body="  leaf sub-%s { type %s; }\n" % (k, ty))["src"]
+    raise ValueError(name)
+
+
+def tree_texts():
+    """the texts that are loaded with Parse: users of the modules of the tree, and one rejected text"""
+    goods = [module("user", imports=[("dup", "d", None)], body="  container c { leaf l { type d:t; } }\n"),
+             module("user2", imports=[("lib", "l", None)], body="  uses l:g;\n  leaf m { type l:lt; }\n"),
+             module("host", includes=[("usub", None)], body="  leaf own { type string; }\n"),
+             module("user4", imports=[("chain", "c", None), ("lib", "l", None)], body="  leaf z { type l:lt; }\n")]
+    texts = [text_of(it["mod"] + ".yang", [it]) for it in goods]
+    texts.append(text_of("rejected.yang", [bad_items("t")[0]]))
+    return texts
+
+
+def tree_broken():
+    bads = bad_items("t")
+    good = tree_module("lib", 7)
+    return [("syntax", good.rstrip()[:-1]), ("unbalanced", good + "}\n"), ("unknown-statement", bads[0]["src"]),
+            ("second-type", bads[1]["src"]), ("not-a-module", bads[2]["src"]), ("typedef", bads[3]["src"]),
+            ("keyword", bads[5]["src"]), ("partial", tree_module("lib", 8).replace("module lib", "module other") + "\nfrobnicate x;\n"),
+            ("empty-braces", "module {}\n")]
+
+
+class TreeCase:
+    def __init__(self, label, files, path, ops, opts="-"):
+        self.label, self.files, self.path, self.ops, self.opts = label, files, path, ops, opts
+        self.texts = tree_texts()
+
+    def line(self, ops=None):
+        toks = ["c18tree", self.opts, ",".join(ops if ops is not None else self.ops), ",".join(self.path) if self.path else "-",
+                str(len(self.files))]
+        for f in sorted(self.files):
+            toks += [hx(f), hx(self.files[f])]
+        toks.append(str(len(self.texts)))
+        for t in self.texts:
+            toks += [hx(t["name"]), hx(t["src"])]
+        return " ".join(toks)
+
+    def stems(self):
+        return sorted({os.path.basename(f).split("@")[0].replace(".yang", "") for f in self.files})
+
+    def model_lines(self):
+        """one findfile line of the C13 part per module name of the tree: (tree, cwd = an empty directory, Path, name)"""
+        def entries(prefix):
+            names = {}
+            for f in self.files:
+                if f.startswith(prefix):
+                    head, _, rest = f[len(prefix):].partition("/")
+                    names[head] = bool(rest) or names.get(head, False)
+            return [(n, entries(prefix + n + "/") if isdir else None) for n, isdir in sorted(names.items(), key=lambda kv: kv[0].encode())]
+
+        def tok(ents):
+            return "(" + ",".join(("D" + hx(n) + tok(c)) if c is not None else ("F" + hx(n)) for n, c in ents) + ")"
+
+        ents = sorted(entries("") + [("cwd", [])], key=lambda e: e[0].encode())
+        ptoks = []
+        for p in self.path:
+            dots = p.endswith("+")
+            q = p.rstrip("+")
+            ptoks.append(("." if q == "." else "/".join(hx(c) for c in q.split("/"))) + ("+" if dots else ""))
+        return ["findfile %s %s %s %s" % (tok(ents), hx("cwd"), ";".join(ptoks) if ptoks else "-", hx(n)) for n in self.stems()]
+
+    def replay(self):
+        return dict(kind="tree", label=self.label, files=self.files, path=self.path, ops=self.ops, opts=self.opts)
+
+
+def tree_layout(rnd, broken, force_dup=True):
+    """files of a random tree: every module name in 1..3 directories (different versions), rejected files beside them"""
+    dirs = rnd.sample(TREE_DIRS, rnd.randint(2, 4))
+    files, k = {}, 0
+    for name in ("dup", "lib", "usub", "chain"):
+        if name == "chain" and rnd.random() < 0.4:
+            continue
+        n = rnd.choice([1, 2, 2, 3]) if not (force_dup and name == "dup") else rnd.choice([2, 2, 3])
+        for d in rnd.sample(dirs, min(n, len(dirs))):
+            k += 1
+            x = rnd.random()
+            if name == "dup" and x < 0.12:
+                files["%s/dup@%s.yang" % (d, D1)] = tree_module("dup", "d")
+            elif name == "dup" and x < 0.22:
+                files["%s/dup.yang" % d] = tree_module("dup", "e")
+            elif name == "lib" and x < 0.06:
+                files["%s/lib.yang" % d] = rnd.choice(broken)[1]          # an import whose first candidate is rejected
+            else:
+                files["%s/%s.yang" % (d, name)] = tree_module(name, k)
+    bnames = []
+    for j in range(rnd.choice([1, 1, 2, 3])):
+        bn = "broken%d" % j
+        for d in rnd.sample(dirs, rnd.choice([1, 1, 2])):
+            files["%s/%s.yang" % (d, bn)] = rnd.choice(broken)[1]
+        bnames.append(bn)
+    return dirs, files, bnames
+
+
+def tree_paths(rnd, dirs):
+    x = rnd.random()
+    if x < 0.35:
+        return [".+"]
+    ds = list(dirs)
+    rnd.shuffle(ds)
+    if x < 0.65:
+        return ds
+    if x < 0.8:
+        return ds[:rnd.randint(1, len(ds))] + [".+"]
+    if x < 0.9:
+        return [".+"] + ds[:1]
+    tops = sorted({d.split("/")[0] for d in ds})
+    rnd.shuffle(tops)
+    return [t + "+" for t in tops]
+
+
+TREE_USERS = ["user", "user2", "host", "user4"]      # indices 0..3 of tree_texts(); 4 = the rejected text
+
+
+def tree_ops(rnd, bnames, maxlen=8):
+    """a history: failing loads by bare name (0, 1, 2, ... of them; at the start, between loads, after a run), loads of
+    users with Parse, loads of modules of the tree by name, runs"""
+    n = rnd.randint(2, maxlen)
+    ops = []
+    for _ in range(n - 1):
+        x = rnd.random()
+        if x < 0.3:
+            ops.append(rnd.choice(["R", "R", "R", "M"]) + hx(rnd.choice(bnames)))
+        elif x < 0.34:
+            ops.append(rnd.choice("RM") + hx("nosuchmodule"))
+        elif x < 0.38:
+            ops.append("L4")
+        elif x < 0.5:
+            ops.append("R" + hx(rnd.choice(["dup", "lib", "chain", "usub"])))
+        elif x < 0.78:
+            ops.append("L%d" % rnd.randrange(4))
+        elif x < 0.9 and ops:
+            ops.append("P")
+        elif x < 0.95 and ops:
+            ops.append(rnd.choice("TC"))
+        else:
+            ops.append("G" + hx(rnd.choice(["dup", "lib", "chain"] + TREE_USERS)))
+    ops.append("P" if rnd.random() < 0.8 else "G" + hx(rnd.choice(["dup", "chain", "user", "user4"])))
+    return ops
+
+
+TREE_SCRIPTS = ["R!,L0,P", "L0,R!,P", "L1,P,R!,L0,P,P", "R!,Rdup,P", "M!,L0,P,P", "R!,R!,L0,L2,P", "R!,Gdup", "R!,L3,P",
+                "L2,R!,P,L0,P", "R!,L4,L0,L1,L2,P", "Rlib,R!,L0,P", "R!,T,L2,L3,P,P", "L0,P,R!,P", "R!,Guser4"]
+
+
+def tree_cases(rnd, n_random):
+    broken = tree_broken()
+    cases = []
+
+    def script(s, bn):
+        out = []
+        for o in s.split(","):
+            if o.endswith("!"):
+                out.append(o[0] + hx(bn))
+            elif o[0] in "RGM":
+                out.append(o[0] + hx(o[1:]))
+            else:
+                out.append(o)
+        return out
+
+    # scripted: one directory per release, the rejected file in one of them, every kind of rejected file, the rejected
+    # file's directory first / in the middle / last in the order of the search, every shape of search path
+    k = 0
+    for kind, text in broken:
+        for where in (0, 1, 2):
+            rel = ["rel-1", "rel-2", "rel-3"]
+            files = {}
+            for i, d in enumerate(rel):
+                for name in ("dup", "lib", "usub"):
+                    files["%s/%s.yang" % (d, name)] = tree_module(name, i + 1)
+            files["rel-%d/chain.yang" % (3 - where)] = tree_module("chain", 1)
+            files["%s/broken0.yang" % rel[where]] = text
+            for path in ([".+"], rel, rel[::-1], ["rel-2", ".+"]):
+                s = TREE_SCRIPTS[k % len(TREE_SCRIPTS)]
+                k += 1
+                cases.append(TreeCase("scripted:%s:%s" % (kind, s), files, path, script(s, "broken0"), "-fq"[k % 3]))
+    # controls of the family: every module name once / the rejected file alone in its directory
+    for s in TREE_SCRIPTS:
+        files = {"rel-1/dup.yang": tree_module("dup", 1), "rel-1/lib.yang": tree_module("lib", 1),
+                 "rel-2/usub.yang": tree_module("usub", 1), "rel-2/chain.yang": tree_module("chain", 1),
+                 "rel-3/broken0.yang": broken[2][1]}
+        cases.append(TreeCase("control:%s" % s, files, [".+"], script(s, "broken0")))
+    for _ in range(n_random):
+        dirs, files, bnames = tree_layout(rnd, broken)
+        cases.append(TreeCase("random", files, tree_paths(rnd, dirs), tree_ops(rnd, bnames), rnd.choice("--fq")))
+    return cases
+
+
+def tree_sorted(j):
+    for run in j["runs"]:
+        pairs = sorted(zip(run["errors"], run["errpos"]))
+        run["errors"], run["errpos"] = [e for e, _ in pairs], [q for _, q in pairs]
+    return j
+
+
+def tree_is_load(op):
+    return op[0] in "LRM"
+
+
+def tree_failed(v):
+    return v.startswith("err:") or v.startswith("errload")
+
+
+def tree_judge(c, h, ref_of, model):
+    """(what, details) of the first discrepancy of one tree history, or None.  h = parsed history output, ref_of(ops) =
+    parsed output of a fresh set run on ops, model = {module name: file the model finds}"""
+    loads = [o for o in c.ops if tree_is_load(o)]
+    if len(h["loads"]) != len(loads):
+        return "history did not complete", {}
+    # the model: every file of the tree that is in the set is the one the model finds for its name
+    mbad = None
+    if model is not None:
+        for stage, sets in (("run", h["loaded"]), ("load", h["after"])):
+            for r, srcs in enumerate(sets):
+                for src in srcs:
+                    f = src.rsplit(":", 2)[0]
+                    if "/" not in f or mbad:
+                        continue
+                    stem = os.path.basename(f).split("@")[0].replace(".yang", "")
+                    if model.get(stem) != f:
+                        mbad = ("after %s #%d the set holds %s, but the file that the search path %s leads to for the name %s "
+                                "is %s (coq/Model/File.v findFile_fs)" % (stage, r + 1, f, c.path, stem, model.get(stem)),
+                                dict(model=model))
+    # the search path is that of the start throughout
+    if any(p != h["paths"][0] for p in h["paths"]):
+        return "ms.Path changes along a history of loads by bare name: %s" % h["paths"], {}
+    failed = [tree_failed(v) for v in h["loads"]]
+    if not any(failed):
+        return mbad
+    kept, li = [], 0
+    for o in c.ops:
+        if tree_is_load(o):
+            if not failed[li]:
+                kept.append(o)
+            li += 1
+        else:
+            kept.append(o)
+    b = ref_of(kept)
+    if b is None:
+        return "the history without its failed loads did not complete on a fresh set", dict(reference_ops=kept)
+    hv = [v for v, f in zip(h["loads"], failed) if not f]
+    ha = [a for a, f in zip(h["after"], failed) if not f]
+    for what, x, y in (("verdicts of the other loads", hv, b["loads"]), ("runs", h["runs"], b["runs"]),
+                       ("files in the set after the runs", h["loaded"], b["loaded"]),
+                       ("files in the set after the other loads", ha, b["after"]), ("ms.Path", h["paths"], b["paths"])):
+        if x != y:
+            return ("with the failed loads %s the %s differ from those of a fresh set that was never offered them: %s" % (
+                [tree_show(o) for o, f in zip(loads, failed) if f], what, first_diff(x, y)) + ("; also, " + mbad[0] if mbad else ""),
+                    dict(reference_ops=kept, history=x, reference=y))
+    return mbad
+
+
+def tree_leg(res, cases, stats, max_report=3):
+    lines = [c.line() for c in cases]
+    outs = run_go(lines)
+    mlines = []
+    for c in cases:
+        mlines += c.model_lines()
+    mouts = lib.run_ml(mlines) if mlines else []
+    use_model = bool(mouts) and not any(o.startswith("unknown-cmd") for o in mouts[:1])
+    stats["tree_model_lookups"] += len(mouts) if use_model else 0
+    parsed, models, refs, k = [], [], {}, 0
+    for c, o in zip(cases, outs):
+        j = tree_sorted(parse(o)) if parse(o) else None
+        parsed.append(j)
+        m = None
+        if use_model:
+            m = {}
+            for n in c.stems():
+                a = mouts[k].split(" | ")[0]
+                k += 1
+                m[n] = None if a == "-" else ("/".join(bytes.fromhex(x).decode() for x in a.split("/")) if re.match(r"^[0-9a-f/]+$", a) else "?" + a)
+        models.append(m)
+        if j is not None and len(j["loads"]) == sum(1 for o in c.ops if tree_is_load(o)) and any(tree_failed(v) for v in j["loads"]):
+            failed = [tree_failed(v) for v in j["loads"]]
+            kept, li = [], 0
+            for o in c.ops:
+                if tree_is_load(o):
+                    if not failed[li]:
+                        kept.append(o)
+                    li += 1
+                else:
+                    kept.append(o)
+            refs[c.line(kept)] = None
+    keys = list(refs)
+    for key, o in zip(keys, run_go(keys)):
+        refs[key] = tree_sorted(parse(o)) if parse(o) else None
+    stats["tree_reference_runs"] += len(keys)
+    reported = 0
+    for c, l, o, j, m in zip(cases, lines, outs, parsed, models):
+        stats["tree_histories"] += 1
+        if j is None:
+            bad = ("history did not complete: %s" % o[:300], {})
+        else:
+            nf = sum(1 for v in j["loads"] if tree_failed(v))
+            stats["tree_failed_loads"] += nf
+            stats["tree_runs"] += len(j["runs"])
+            ondemand = sum(1 for srcs in j["loaded"][-1:] for s_ in srcs if "/" in s_.rsplit(":", 2)[0])
+            stats["tree_files_in_final_set"] += ondemand
+            if nf and ondemand:
+                stats["tree_nontrivial"] += 1
+            bad = tree_judge(c, j, lambda ops: refs.get(c.line(ops)), m)
+        if bad:
+            stats["differences"] += 1
+            if reported < max_report:
+                reported += 1
+                what, det = bad
+                res.violation("tree of files [%s] path=%s ops=%s loads=%s: %s" % (
+                    c.label, c.path, ",".join(tree_show(o_) for o_ in c.ops), j["loads"] if j else "?", what),
+                    dict(c.replay(), history_line=l, diff=what, **det))
+
+
+def tree_show(op):
+    return op[0] + bytes.fromhex(op[1:]).decode() if op[0] in "RMG" else op
+
+
 def gen_cases(rnd, n, which=None):
     cases = []
     for _ in range(n):
@@ -1011,6 +1364,8 @@ def new_stats():
     return dict(histories=0, nontrivial=0, crashed=0, loads_ok=0, loads_failed=0, process_runs=0, batch_runs=0,
                 runs_with_errors=0, runs_clean=0, differences=0, map_order_dependent=0, twice_pairs=0,
                 cli_runs=0, cli_resolved=0, cli_failing=0,
+                tree_histories=0, tree_nontrivial=0, tree_failed_loads=0, tree_runs=0, tree_reference_runs=0,
+                tree_files_in_final_set=0, tree_model_lookups=0,
                 corr_cases=0, corr_ops=0, corr_mismatch=0, corr_d43_shaped_loads=0, corr_binds_compared=0, corr_ns=0)
 
 
@@ -1032,17 +1387,27 @@ def run(res, tier, seed, proof):
         metamorphic(res, chunk, stats)
         correspondence(res, chunk, stats)
     cli_leg(res, rnd, 60 if tier == "quick" else 1500, stats)
+    trnd = random.Random(seed * 7919 + 18)
+    tcases = tree_cases(trnd, 1000 if tier == "quick" else 20000)
+    for i in range(0, len(tcases), CH):
+        tree_leg(res, tcases[i:i + CH], stats)
     sample = cases[len(corpus) + 1]
     cov = dict(
-        evaluations=stats["process_runs"] + stats["corr_ops"],
+        evaluations=stats["process_runs"] + stats["corr_ops"] + stats["tree_runs"] + stats["tree_model_lookups"],
         distinct_nontrivial=stats["nontrivial"],
         rule="%d scripted corpus histories (one per defect found by this check, plain / with every kind of failing text "
              "interleaved / the D43 shapes) and %d random histories of 2..10 ops over pools of 1-2 families (typedef chains, "
              "identities, revisions, submodules, equal namespaces, failing-include chains, random resolver schemas) plus "
              "3-8 bad texts; every Process dump compared with a fresh batch run on the accepted texts (re-run 4x4 times "
              "before a difference counts); every history also run through c18hist on model and implementation with "
-             "namespace lookups inserted; non-trivial = a history with a failed load and at least two Process calls"
-             % (len(corpus), n),
+             "namespace lookups inserted; non-trivial = a history with a failed load and at least two Process calls; "
+             "%d histories over trees of files reached through the search path only (a module name in several "
+             "directories with different contents, rejected files beside them; Path = root/..., the directories in "
+             "some order, or a mix; loads by bare name with Read / GetModule that fail or succeed, 0..n of them before, "
+             "between and after loads of importing / including texts and runs): each compared with the same history "
+             "without its failed loads on a fresh set, and every file of the tree that enters the set with the file "
+             "coq/Model/File.v finds for that name (tree_nontrivial = a failed load and a file of the tree in the final set)"
+             % (len(corpus), n, len(tcases)),
         exhaustive=False, mismatches=stats["differences"] + stats["corr_mismatch"] + stats["crashed"],
         distribution=dict(stats, families=fam_hist),
         samples=[dict(ops=sample.ops, families=sample.fams, texts=[t["name"] for t in sample.texts]),
@@ -1057,9 +1422,13 @@ def run(res, tier, seed, proof):
         "imports, includes, identity names, number of typedefs); the model never sees the text",
         "type memo modelled per import/include statement, not per Type node; Identity.Values is part of the identity "
         "dictionary in the model",
-        "the file-system fallback of FindModule (Read of name.yang) is not modelled; the metamorphic histories exercise it "
-        "(op D: a text offered as a file of the search path; what Process reads by itself counts as accepted), the "
-        "correspondence histories drop those ops",
+        "the file-system fallback of FindModule (Read of name.yang) is not part of coq/Model/History.v; the metamorphic "
+        "histories exercise it (op D: a text offered as a file of the search path; what Process reads by itself counts as "
+        "accepted), the correspondence histories drop those ops.  Histories over trees of files (c18tree) are checked by "
+        "an implementation-side oracle that is the property's text (the history without its failed loads on a fresh set "
+        "gives the same verdicts, dumps, loaded files and Path) and against the file chooser of coq/Model/File.v (C13's "
+        "model, command findfile: the file found is a function of tree, Path and name only -- no state of earlier "
+        "lookups); the current directory holds no .yang file there, names are bare module names without revision",
         "a difference between history and batch that disappears when both sides are re-run is attributed to Go map "
         "iteration order and counted as map_order_dependent, not reported (none occurs since Process visits the modules in "
         "key order)",
@@ -1088,6 +1457,19 @@ def replay(rep, res):
         print("  without                      :", wo["rc"], wo["stderr"], len(wo["stdout"]))
         same = w["rc"] == wo["rc"] and w["stdout"] == wo["stdout"] and all(l in w["stderr"] for l in wo["stderr"])
         return 0 if same else 1
+    if kind == "tree":
+        c = TreeCase(rep["label"], rep["files"], rep["path"], rep["ops"], rep["opts"])
+        st = new_stats()
+        tree_leg(res, [c], st)
+        print("files  :", sorted(c.files))
+        print("path   :", c.path, " ops:", ",".join(tree_show(o) for o in c.ops))
+        j = parse(run_go([c.line()])[0])
+        if j:
+            print("loads  :", j["loads"])
+            print("loaded :", j["loaded"])
+        for what, r, _ in res.violations:
+            print("DIFF   :", what)
+        return 1 if res.violations else 0
     c = Case.of_replay(rep)
     if kind.startswith("correspondence"):
         st = new_stats()
